@@ -112,6 +112,55 @@ def _standin(rep, tier, seed, only_search=False):
             rep.violation("disconnected graph: bounds (%r, %r) do not bracket the distance %r of its largest component" % (lb, ub, true_c), "mgh:disconnected:bracket", {"input": inp, "observed": [lb, ub], "expected": true_c})
         if len(samples) < 2:
             samples.append({"A": A.tolist(), "B": B.tolist()})
+    # disconnected graphs under *every* relabelling of a few fixed shapes (the fallback must pick the largest component whatever the labels)
+    def union(*blocks):
+        n = sum(len(b) for b in blocks)
+        U = np.zeros((n, n), dtype=int)
+        o = 0
+        for b in blocks:
+            U[o:o + len(b), o:o + len(b)] = b
+            o += len(b)
+        return U
+    K2 = np.array([[0, 1], [1, 0]])
+    K3 = np.ones((3, 3), dtype=int) - np.eye(3, dtype=int)
+    P3 = np.array([[0, 1, 0], [1, 0, 1], [0, 1, 0]])
+    P4 = np.array([[0, 1, 0, 0], [1, 0, 1, 0], [0, 1, 0, 1], [0, 0, 1, 0]])
+    point = np.array([[0]])
+    shapes = [(union(K2, P4), P4), (union(K2, K3), K3), (union(K2, K2, P3), P3)]
+    for U, big in shapes:
+        true_c = mgh(big, point)
+        perms = list(itertools.permutations(range(len(U))))
+        rng.shuffle(perms)
+        for perm in perms[: (60 if tier == "quick" else 720)]:
+            G2 = relabel(U, list(perm))
+            evals += 1
+            try:
+                (lb, ub), warns = _gh(G2, point)
+            except Exception as ex:
+                rep.violation("a relabelled disconnected graph makes gromov_hausdorff raise %r" % (ex,), "mgh:disconnected:exception", {"input": {"disconnected": G2.tolist(), "other": point.tolist()}})
+                if only_search:
+                    return
+                break
+            if not (lb <= true_c + 1e-12 <= ub + 2e-12):
+                rep.violation("disconnected graph %s (relabelled): bounds (%r, %r) do not bracket the distance %r of its largest component to a point" % (G2.tolist(), lb, ub, true_c),
+                              "mgh:disconnected:bracket", {"input": {"disconnected": G2.tolist(), "other": point.tolist()}, "observed": [lb, ub], "expected": true_c})
+                if only_search:
+                    return
+                break
+    from props.C05 import helper_purity_probe
+    evals += helper_purity_probe(rep, rng, 100 if tier == "quick" else 2000)
+    # larger sparse graphs: a valid bracket needs lower <= upper, whatever the labelling and the RNG state
+    for _ in range(120 if tier == "quick" else 3000):
+        A, B = _rand_graph(rng, rng.randint(4, 9), p=rng.choice([0.25, 0.35, 0.5])), _rand_graph(rng, rng.randint(3, 8), p=rng.choice([0.25, 0.35, 0.5]))
+        np.random.seed(rng.randint(0, 10 ** 6))
+        (lb, ub), _ = _gh(A, B)
+        evals += 1
+        if lb > ub:
+            rep.violation("lower bound %r exceeds upper bound %r on graphs with %d / %d vertices: no distance can lie in that bracket" % (lb, ub, len(A), len(B)), "mgh:bracket:lower-above-upper",
+                          {"input": {"A": A.tolist(), "B": B.tolist()}, "observed": [lb, ub]})
+            if only_search:
+                return
+            break
     if not only_search:
         rep.bounded("representations / relabelling / collections / disconnected graphs", "%d random pairs of connected graphs on 2..5 vertices x 6 container formats, relabelings, 3-graph collections, disconnected unions" % n,
                     evals, len(distinct), "brackets vs exact mGH (all maps enumerated), identical lower bounds across formats, symmetric zero-diagonal matrices, largest-component fallback with a warning", samples)
